@@ -94,6 +94,7 @@ def decide(pid, tier, seed):
     bounded = []
 
     legs = run_verus_leg(pid, conf, tier, seed, outdir)
+    wit = []
     for leg in legs:
         main, canary, patterns = leg['main'], leg['canary'], leg['patterns']
         uname = leg['unit'] + leg['suffix']
@@ -169,7 +170,7 @@ def decide(pid, tier, seed):
     # ---- Kani leg
     kani_res = []
     harnesses = conf.get('kani_' + tier, conf.get('kani_quick', []))
-    if harnesses:
+    if harnesses and not os.environ.get('VERIF_DEV_SKIP_KANI'):
         from .kani import run_kani_leg
         kani_res = run_kani_leg(pid, harnesses, tier, outdir)
         for k in kani_res:
@@ -190,6 +191,30 @@ def decide(pid, tier, seed):
                                        cmd=k['cmd'], witness=k.get('witness'), witness_confirmed=k.get('witness_confirmed')))
             elif k['status'] == 'undecided':
                 undecided.append('kani %s: %s' % (k['harness'], k.get('reason', '')))
+
+    # ---- native bounded leg (executable contracts on the real code, exhaustive small scope)
+    from .witness import run_witness
+    wit = []
+    wfeats = [()] + ([('docs',)] if pid == 'C17' else [])
+    for wf_ in wfeats:
+        w = run_witness(pid, tier, outdir, wf_)
+        if w:
+            wit.append(w)
+    deductive_undecided = bool(undecided)
+    for w in wit:
+        cmds.append(w['cmd'])
+        bounded.append(dict(name='native::%s%s' % (pid, ('+' + '+'.join(w['features'])) if w['features'] else ''), backend='native exhaustive enumeration (bounded, not proof)',
+                            status=w['status'], bound=w['scope'] + ' [max=%d]' % w['max'], cases=w.get('cases'), nontrivial=w.get('nontrivial')))
+        if w['status'] == 'failed':
+            violations.append(dict(unit='native', item='executable contract of ' + pid, obligation='native::%s::executable-contract' % pid,
+                                   message='the executable contract of the property is violated by a concrete execution of the real code',
+                                   clause=w['witness'][:300], rendered=w['witness'], src_file=None, src_line=None, path=None, cmd=w['cmd'],
+                                   witness='The enumerated input below violates the property when run against the real crate (re-run: `%s`):\n\n```\n%s\n```' % (w['cmd'], w['witness'])))
+        elif w['status'] == 'undecided':
+            undecided.append('native bounded leg: ' + w.get('reason', '')[:300])
+    # a concrete counterexample decides even when the deductive leg lost its anchors / met an unsupported construct
+    if any(w['status'] == 'failed' for w in wit):
+        undecided = []
 
     # ---- known findings
     reported, kf_lines = [], []
@@ -223,12 +248,10 @@ def decide(pid, tier, seed):
         seen.add(key)
         rp = os.path.join(REPLAY, '%s-%s.md' % (pid, hashlib.sha1(key.encode()).hexdigest()[:10]))
         witness = v.get('witness')
-        if witness is None and v['unit'] != 'kani':
-            try:
-                from .witness import find_witness
-                witness = find_witness(pid, v)
-            except Exception as ex:  # the witness finder never decides anything
-                witness = None
+        if witness is None:
+            for w in wit:
+                if w['status'] == 'failed':
+                    witness = 'The enumerated input below violates the property when run against the real crate (re-run: `%s`):\n\n```\n%s\n```' % (w['cmd'], w['witness'])
         with open(rp, 'w') as f:
             f.write('# VIOLATION property=%s\n\n' % pid)
             f.write('failed obligation: `%s`\n\n' % v['obligation'])
